@@ -120,6 +120,7 @@ type Exec struct {
 	constMemo         map[*Term]*Term
 	oneShots          int
 	oneShotLimit      int
+	inModel           int // >0 while a //verif:model function runs: its draws are solver-side only
 }
 
 type workItem struct {
@@ -595,7 +596,7 @@ func (ex *Exec) newSymInt(label string, t types.Type, record bool) *Term {
 		ex.addPC(ex.tt.IntCmp("<=", ex.tt.Int(lo), v))
 		ex.addPC(ex.tt.IntCmp("<=", v, ex.tt.Int(hi)))
 	}
-	if record {
+	if record && ex.inModel == 0 {
 		b := t.Underlying().(*types.Basic)
 		ex.draws = append(ex.draws, Draw{Name: name, Kind: "int", Bits: basicWidth(b), vars: []*Term{v}})
 	}
@@ -606,7 +607,7 @@ func (ex *Exec) newSymBool(label string, record bool) *Term {
 	name := ex.newVarName(label)
 	v := ex.tt.Var(name, BoolSort)
 	ex.pathVars = append(ex.pathVars, v)
-	if record {
+	if record && ex.inModel == 0 {
 		ex.draws = append(ex.draws, Draw{Name: name, Kind: "bool", vars: []*Term{v}})
 	}
 	return v
@@ -625,7 +626,7 @@ func (ex *Exec) newSymBytes(label string, n int, record bool) []*Term {
 		}
 		out[i] = v
 	}
-	if record {
+	if record && ex.inModel == 0 {
 		ex.draws = append(ex.draws, Draw{Name: name, Kind: "bytes", N: n, vars: out})
 	}
 	return out
